@@ -193,7 +193,7 @@ def pc_serialization(case, lo):
     """C12 on the implementation: re-serialization identical, reported size = bytes written, every proper prefix
     is an error, decisions with deserialized key / commitments / proof unchanged"""
     fails = []
-    if case.kind != "pc" or "c12" not in case.fields:
+    if case.kind not in ("pc", "mlpc") or "c12" not in case.fields:
         return fails
     sch = case.meta["scheme"]
     for k, v in lo.items():
